@@ -929,6 +929,9 @@ func (se *SpecEnv) call(e SCall, hint types.Type) Val {
 		k := se.eval(e.Args[1], mt.Key())
 		h, _ := f.mapGet(se.state(), mt, m.L[0], k.L[0])
 		return boolVal(and(not(eq(m.L[0], "0")), h))
+	case "wellformed": // wellformed(x): the typing facts the engine assumes of every value loaded by the code (for values only a quantified clause reaches)
+		x := se.eval(e.Args[0], nil)
+		return boolVal(f.wf(se.state(), x))
 	case "foreignobject": // the object x refers to was not allocated as a struct or array type of the repository (or x is nil)
 		x := se.eval(e.Args[0], nil)
 		ref := x.L[0]
